@@ -82,13 +82,13 @@ fn clear_witness_frame_proof() {
             assert!(s1.len() == 0);
             kani::cover!(s0.len() == 2);
             kani::cover!(s0.len() == 0);
-            // serialization: 80 fixed bytes + challenge + one 0 byte; equal to the old one up to the solution
+            // serialization: 76 fixed bytes (version, prev hash, merkle root, time, height) + challenge + one 0 byte; equal to the old one up to the solution
             let (n1, e1) = enc::<90>(&h);
             let (n0, e0) = enc::<90>(&before);
-            assert!(n1 == 80 + 3 + 1 && n0 == n1 + s0.len());
+            assert!(n1 == 76 + 3 + 1 && n0 == n1 + s0.len());
             let mut i = 0;
-            while i < 83 { assert!(e1.buf[i] == e0.buf[i]); i += 1; }
-            assert!(e1.buf[83] == 0 && e0.buf[83] == s0.len() as u8);
+            while i < 79 { assert!(e1.buf[i] == e0.buf[i]); i += 1; }
+            assert!(e1.buf[79] == 0 && e0.buf[79] == s0.len() as u8);
         }
         _ => assert!(false),
     }
